@@ -116,6 +116,10 @@ def run(ctx):
     check_on_copies(ctx)
     check_sweep_termination(ctx)
     check_region_partition(ctx)
+    from ._generic import minimal_scan
+    for q_, f_ in sorted(ctx.repo.module(RG).funcs.items()):
+        if q_.startswith('RegionGraph.') and '<locals>' not in q_:
+            minimal_scan(ctx, f_, 'region-structure')
     check_fg_datavector(ctx)
     check_carried_messages(ctx)
     check_reiterable_sets(ctx)
